@@ -239,6 +239,9 @@ class SimDeadlock(Exception):
     pass
 
 
+LISTING_PROBE_CAP = 120000
+
+
 def nthreads_of(plan: dict) -> int:
     """Threads = the first n recipes; the rest (plan['chain']: thread -> recipe indices) are documents a worker
     thread encodes AFTER its first one, as a pooled worker does."""
@@ -282,6 +285,8 @@ class Sched:
         dec = plan["decider"]
         self.kind = dec["kind"] if plan.get("decisions") is None else "explicit"
         self.explicit = {int(s): int(t) for s, t in (plan.get("decisions") or [])}
+        self._after_hot = 0
+        self.after_hot_steps: list = []
         self.chain_switch = plan.get("chain_switch")  # {"to": thread, "then": [[steps later, thread], ...]}
         self._chain_done = False
         hint = max(1, total_steps_hint)
@@ -367,9 +372,18 @@ class Sched:
                 # entry of a function that writes process-shared state: "about to touch it"
                 self.hot_steps.append(self.step)
                 self.priority_steps.append(self.step)
+        if self.list_hot and i == self.first and ev == "call" and not self.decisions and 0 < self._after_hot <= 6 \
+                and len(self.after_hot_steps) < 400 and (not self.hot_steps or self.hot_steps[-1] != self.step):
+            # the first few boundaries after this thread has left the hot statements: "it has written shared state
+            # and carries on" - where a second pre-emption has to fall for lost-update style races
+            self.after_hot_steps.append(self.step)  # kept apart: used only when the hot region is small
+            self._after_hot += 1
         if self.list_hot and i == self.first and ev == "line" and not self.decisions:
+            self._after_hot = 1
             self.hot_steps.append(self.step)
-            if self.dirty_probe is not None and self.dirty_probe(i):
+            if len(self.hot_steps) > LISTING_PROBE_CAP:
+                pass  # the probes cost about a millisecond each: priorities come from the first part of the encode
+            elif self.dirty_probe is not None and self.dirty_probe(i):
                 self.priority_steps.append(self.step)  # a component object is different from its baseline right now
             elif self.sig_probe is not None:
                 cur = self.sig_probe()
@@ -494,6 +508,28 @@ def build_docs(plan: dict, figdir: str) -> list:
     return docs
 
 
+def _quick_obj(o):
+    d = getattr(o, "__dict__", None)
+    if not isinstance(d, dict):
+        return id(o)
+    return tuple([(id(v), len(v), tuple([id(x) for x in v[:8]])) if type(v) in (list, tuple) else id(v)
+                  for v in d.values()])
+
+
+def doc_component_quick(doc, attrs) -> tuple:
+    """Identity-level fingerprint of the component objects (and of the caller's frame): a few microseconds; used as
+    a pre-filter for doc_component_dumps, which hashes the values."""
+    out = []
+    for attr in attrs:
+        v = getattr(doc, attr, None)
+        if attr == "df":
+            fr = v if isinstance(v, (list, tuple)) else [v]
+            out.append(tuple([(id(f), tuple(f.columns), f.shape) for f in fr if f is not None]))
+        else:
+            out.append(_quick_obj(v))
+    return tuple(out)
+
+
 def doc_component_dumps(doc, attrs=("rtf_body", "rtf_column_header", "rtf_page", "rtf_title", "rtf_subline",
                                     "rtf_page_header", "rtf_page_footer", "rtf_footnote", "rtf_source")) -> tuple:
     from . import state
@@ -501,6 +537,14 @@ def doc_component_dumps(doc, attrs=("rtf_body", "rtf_column_header", "rtf_page",
     out = []
     for attr in attrs:
         try:
+            if attr == "df":
+                # the caller's frame(s): names, shape, types and per-column flags (cheap; values are judged elsewhere)
+                v = getattr(doc, "df", None)
+                fr = v if isinstance(v, (list, tuple)) else [v]
+                out.append(tuple((tuple(f.columns), tuple(f.shape), tuple(str(d) for d in f.dtypes),
+                                  tuple(sorted((k, tuple(sorted(fl.items()))) for k, fl in f.flags.items())))
+                                 for f in fr if f is not None))
+                continue
             out.append(state.component_dump(getattr(doc, attr, None)))
         except Exception:  # noqa: BLE001
             out.append("?")
@@ -541,13 +585,32 @@ def exec_schedule(arg) -> dict:
         from . import state as _state
 
         _fs = _state.FastSig()
-        sched.sig_probe = _fs.sig
+        _st = {"s0": None, "full": None, "ver": 0, "n": 0}
+
+        def _probe():
+            # cheap tier at every statement (identity / length of every slot), the full signature every 8th;
+            # returns a version number that moves whenever either tier has changed
+            _st["n"] += 1
+            s0 = _fs.sig0()
+            if _st["s0"] is not None and s0 != _st["s0"]:
+                _st["ver"] += 1
+            _st["s0"] = s0
+            if _st["n"] % 8 == 0:
+                f = _fs.sig()
+                if _st["full"] is not None and f != _st["full"]:
+                    _st["ver"] += 1
+                _st["full"] = f
+            return _st["ver"]
+
+        sched.sig_probe = _probe
     if plan.get("list_hot_steps") and plan.get("check_dirty"):
         shl = plan.get("share") or [None] * n
         attrs = [tuple(R._COMP_ARG[c] for c in SHARED_COMPONENTS if shl[i] and shl[i].get(c) and c in R._COMP_ARG)
-                 for i in range(n)]
+                 + (("df",) if shl[i] and shl[i].get("df") else ()) for i in range(n)]
         bases = [doc_component_dumps(d, attrs[i]) if d is not None else None for i, d in enumerate(docs)]
+        qbases = [doc_component_quick(d, attrs[i]) if d is not None else None for i, d in enumerate(docs)]
         sched.dirty_probe = lambda i: (docs[i] is not None and bool(attrs[i])
+                                       and doc_component_quick(docs[i], attrs[i]) != qbases[i]
                                        and doc_component_dumps(docs[i], attrs[i]) != bases[i])
     want_ret = tmode == "callret"
     want_line = tmode == "line"
@@ -696,6 +759,7 @@ def exec_schedule(arg) -> dict:
         "sites_seen": sorted(sched.sites_seen) if sched.collect_sites else None,
         "hot_steps": sched.hot_steps if sched.list_hot else None,
         "priority_steps": sched.priority_steps if sched.list_hot else None,
+        "after_hot_steps": sched.after_hot_steps if sched.list_hot else None,
     }
 
 
@@ -743,8 +807,10 @@ def profile_hot(arg) -> dict:
         for rep in range(2):
             key = f"{ri}:{rep}"
             sh = (arg.get("share") or [None] * len(arg["recipes"]))[ri]
-            comp_attrs = tuple(R._COMP_ARG[c] for c in SHARED_COMPONENTS if sh and sh.get(c) and c in R._COMP_ARG)
+            comp_attrs = tuple(R._COMP_ARG[c] for c in SHARED_COMPONENTS if sh and sh.get(c) and c in R._COMP_ARG) \
+                + (("df",) if sh and sh.get("df") else ())
             comp_base = doc_component_dumps(doc, comp_attrs) if comp_attrs else None
+            comp_qbase = doc_component_quick(doc, comp_attrs) if comp_attrs else None
             fine = None
             if windows is not None:
                 fine = set()
@@ -757,14 +823,16 @@ def profile_hot(arg) -> dict:
 
             def check(code, caller=None):
                 n[0] += 1
-                if comp_base is not None and n[0] % COMPONENT_GRAIN == 0 \
+                if comp_base is not None and (n[0] % COMPONENT_GRAIN == 0 or comp_attrs == ("df",)) \
+                        and doc_component_quick(doc, comp_attrs) != comp_qbase \
                         and doc_component_dumps(doc, comp_attrs) != comp_base:
                     # a component object of the document is (perhaps only transiently) different from what the
                     # caller handed in: every function on the stack right now lies inside that window
                     comp_dirty[0] += 1
                     for c in stack[-3:]:
-                        k = boot.site_of(c)
-                        hot[k] = hot.get(k, 0) + 1
+                        # hot (their statements are pre-emption points), but not "writers": their every call is
+                        # not a priority point - the listing run finds the dirty windows themselves
+                        hot.setdefault(boot.site_of(c), 0)
                 w = n[0] // PROFILE_GRAIN
                 if fine is None:
                     if n[0] % PROFILE_GRAIN:
@@ -1279,6 +1347,14 @@ def sweep_groups(root: int, n_groups: int) -> list:
     # list-valued columns on both threads, in a process whose display configuration the caller has changed
     LA, LB = rich_doc(rng, 0, "listcols"), rich_doc(rng, 1, "listcols")
     LA["ambient"] = LB["ambient"] = R.AMBIENTS[0]
+    # two documents built on the SAME DataFrame object (a caller making two tables from one frame): one hides its
+    # page_by columns, the other its subline_by column; shorter than the pageby pair to keep the profile cheap
+    FA2 = rich_doc(rng, 0, "pageby")
+    FB2 = rich_doc(rng, 1, "subline")
+    for f in FA2["dfs"]:
+        f["cols"] = [[n_, t_, v_[14:36]] for n_, t_, v_ in f["cols"]]
+    FB2["dfs"] = _json.loads(_json.dumps(FA2["dfs"]))
+    FA2["page"]["nrow"], FB2["page"]["nrow"] = 9, 11
     SBs = _json.loads(_json.dumps(SB))
     for c in ("footnote", "source", "title", "page_header", "page_footer"):
         SBs[c] = _json.loads(_json.dumps(SA[c]))  # equal specs: the two documents hold the SAME component objects
@@ -1288,6 +1364,7 @@ def sweep_groups(root: int, n_groups: int) -> list:
               ("same-document", GG, _json.loads(_json.dumps(GG))),
               ("list-columns", LA, LB),
               ("thread-reuse", SA, SB),
+              ("shared-frame", FA2, FB2),
               ("multi-vs-multi", MA, MB), ("grouped-vs-single", grouped or MB, SA),
               ("figure-vs-single", FA, SB)]
     return groups[:n_groups]
@@ -1296,7 +1373,8 @@ def sweep_groups(root: int, n_groups: int) -> list:
 GROUP_NO_HOT = {"thread-reuse"}  # same documents as group 0: no second profile; swept by the "chain" mode only
 GROUP_SAME_DOC = {"same-document": {"1": 0}}  # thread 1 encodes the very document object of thread 0
 GROUP_SHARE = {"shared-components": [{c: c in ("footnote", "source", "title", "page_header", "page_footer")
-                                       for c in SHARED_COMPONENTS}] * 2}
+                                       for c in SHARED_COMPONENTS}] * 2,
+               "shared-frame": [dict({c: False for c in SHARED_COMPONENTS}, df=True)] * 2}
 
 
 def hot_job(j: dict) -> dict:
@@ -1317,6 +1395,7 @@ def hot_job(j: dict) -> dict:
             res = run_plan(plan, refs, ws["figdir"])
             out["hot_steps"][str(order)] = res["hot_steps"] or []
             out["priority_steps"][str(order)] = res.get("priority_steps") or []
+            out.setdefault("after_hot_steps", {})[str(order)] = res.get("after_hot_steps") or []
     if j.get("cold_probe"):
         # the same profile in a COLD process: functions that write shared state only the first time they run
         # (lazily loaded resources, one-time registrations) - invisible above, where one encode precedes the profile
@@ -1408,15 +1487,22 @@ def sweep_jobs(root: int, groups: list, refcache: RefCache, specs: list, hot_inf
         sa = info["hot_steps"].get("0", [])
         sb = info["hot_steps"].get("1", [])
         m = max(1, int(hot3_cap ** 0.5))
-        pick_a = _pick(sa, info.get("priority_steps", {}).get("0", []), m)
-        pick_b = _pick(sb, info.get("priority_steps", {}).get("1", []), m)
+        # a short list of hot statements (a couple of small functions) is taken whole for the first group: every
+        # pair of pre-emption points, to completion, with and without a chained third encode
+        whole = gi == 0 and len(sa) <= 48 and len(sb) <= 48
+        if whole:
+            # ... including the first call boundaries after each visit to the hot statements
+            sa = sorted(set(sa) | set(info.get("after_hot_steps", {}).get("0", [])))
+            sb = sorted(set(sb) | set(info.get("after_hot_steps", {}).get("1", [])))
+        pick_a = _pick(sa, info.get("priority_steps", {}).get("0", []), len(sa) if whole else m)
+        pick_b = _pick(sb, info.get("priority_steps", {}).get("1", []), len(sb) if whole else m)
         # two threads, two or three switches: X paused inside a hot function, Y paused inside a hot
         # function, X resumes (to completion, or just for d more boundaries), then Y - both role assignments
         for (x, y, px, py, tag) in ((a, b, pick_a, pick_b, 0), (b, a, pick_b, pick_a, 1)):
             shx = GROUP_SHARE.get(name)
             for k1 in px:
                 for j2 in py:
-                    for d in (None, 1, 2, 4, 8):
+                    for d in ((None,) if whole else (None, 1, 2, 4, 8)):
                         decs = [[k1, 1], [k1 + j2, 0]] + ([[k1 + j2 + d, 1]] if d else [])
                         plan = {"recipes": [x, y], "decider": {"kind": "sweep"}, "first": 0, "trace_mode": "hot",
                                 "hot_sites": sorted(info["hot"]), "decisions": decs, "finish_pref": [0, 1],
@@ -1424,6 +1510,14 @@ def sweep_jobs(root: int, groups: list, refcache: RefCache, specs: list, hot_inf
                         jobs.append({"idx": idx, "sweep": {"group": name, "order": tag, "k": k1, "K": len(px),
                                                            "mode": "hot2x", "stride": 0}, "plan": plan})
                         idx += 1
+                        if d is None and gi == 0:
+                            # ... and X is a pooled worker: after finishing it picks up another document (an
+                            # equal-valued copy of its own) while Y is still in flight - a later starter that finds
+                            # whatever bookkeeping the two overlapping encodes left behind
+                            cplan = dict(plan, recipes=[x, y, R_json_copy(x)], chain={"0": [2]})
+                            jobs.append({"idx": idx, "sweep": {"group": name, "order": tag, "k": k1, "K": len(px),
+                                                               "mode": "hot2x+chain", "stride": 0}, "plan": cplan})
+                            idx += 1
         for k1 in pick_a:
             for j2 in pick_b:
                 for pref in ([0, 1], [1, 0]):
@@ -1442,7 +1536,9 @@ def sweep_jobs(root: int, groups: list, refcache: RefCache, specs: list, hot_inf
         for order in (0, 1):
             steps = info["hot_steps"].get(str(order), [])
             stride = max(1, -(-len(steps) // hot_cap))
-            for k in steps[::stride]:
+            prio = info.get("priority_steps", {}).get(str(order), [])
+            prio = prio[:: max(1, -(-len(prio) // max(1, hot_cap // 4)))]  # writer entries / dirty windows: always
+            for k in sorted(set(steps[::stride]) | set(prio)):
                 plan = {"recipes": [a, b], "decider": {"kind": "sweep"}, "first": order, "trace_mode": "hot",
                         "hot_sites": sorted(info["hot"]), "decisions": [[k, 1 - order]], "abort": None,
                         "share": GROUP_SHARE.get(name)}
@@ -1481,14 +1577,14 @@ def sweep_jobs(root: int, groups: list, refcache: RefCache, specs: list, hot_inf
 # batch
 # --------------------------------------------------------------------------
 
-TIERS = {"quick": {"runs": 320, "wall": 420.0, "groups": 11, "hot_cap": 600, "hot3_cap": 100,
+TIERS = {"quick": {"runs": 320, "wall": 420.0, "groups": 12, "hot_cap": 600, "hot3_cap": 100,
                    "cold_groups": (0, 1, 2, 4, 7, 8), "cold_cap": 150,
                    "sweeps": [(0, "call", 96), (1, "call", 96), (2, "call", 12), (3, "call", 128), (4, "call", 96),
                               (5, "call", 4096), (6, "call", 96), (7, "call", 24), (8, "call", 32), (8, "grid2", 16),
-                              (9, "call", 64), (10, "chain", 512), (0, "line", 768)]},
-         "thorough": {"runs": 60000, "wall": 3000.0, "groups": 14, "hot_cap": 4000, "hot3_cap": 2500,
-                      "cold_groups": tuple(range(14)), "cold_cap": 4000,
-                      "sweeps": [(i, "callret", 1) for i in range(14) if i != 10] + [(i, "line", 4) for i in range(14) if i != 10]
+                              (9, "call", 64), (10, "chain", 512), (11, "call", 512), (0, "line", 768)]},
+         "thorough": {"runs": 60000, "wall": 3000.0, "groups": 15, "hot_cap": 4000, "hot3_cap": 2500,
+                      "cold_groups": tuple(range(15)), "cold_cap": 4000,
+                      "sweeps": [(i, "callret", 1) for i in range(15) if i != 10] + [(i, "line", 4) for i in range(15) if i != 10]
                       + [(10, "chain", 2)]
                       + [(8, "grid2", 2), (7, "grid2", 4), (3, "grid2", 64)]}}
 
